@@ -12,7 +12,7 @@ ALL = [f"C{i:02d}" for i in range(1, 21)]
 
 checks = []
 for pid in ALL:
-    if pid not in REGISTRY:
+    if pid not in REGISTRY or not REGISTRY[pid].get("claimed", True):
         continue
     spec = REGISTRY[pid]
     checks.append(dict(
@@ -39,7 +39,7 @@ manifest = dict(
         source_commits=[],
         add_only=True,
     ),
-    engines=[dict(name="lean4-model+correspondence", path="lean/ + harness/", serves_properties=sorted(REGISTRY),
+    engines=[dict(name="lean4-model+correspondence", path="lean/ + harness/", serves_properties=sorted(p for p in REGISTRY if REGISTRY[p].get('claimed', True)),
                   kind_free_text="Lean 4 executable model with machine-checked theorems; finite tables regenerated from the live "
                                  "code and proved equal by decide; compiled model driver diffed byte-for-byte against the real "
                                  "pyjelly on generated inputs; property oracles on the real code")],
@@ -47,7 +47,7 @@ manifest = dict(
     notes="Fix commits in /repo (see known_findings.json, status fixed) repair C06, C11a, C14 (x2), C15/C02, C16 (x2). "
           "Exit 2 = tooling failure. See DESIGN.md.",
     not_applicable=[dict(property_id=p, reason=mt.NOT_YET.get(p, "not claimed yet: its check is still under construction (DESIGN.md §9); the technique applies"))
-                    for p in ALL if p not in REGISTRY],
+                    for p in ALL if p not in REGISTRY or not REGISTRY[p].get('claimed', True)],
 )
 (VERIF / "MANIFEST.json").write_text(json.dumps(manifest, indent=1, ensure_ascii=False) + "\n")
-print("claimed:", sorted(REGISTRY), "unclaimed:", [p for p in ALL if p not in REGISTRY])
+print("claimed:", sorted(REGISTRY), "unclaimed:", [p for p in ALL if p not in REGISTRY or not REGISTRY[p].get('claimed', True)])
